@@ -440,6 +440,7 @@ pub fn run(cfg: &Cfg) {
     tables(&mut sink);
     let n = if cfg.thorough { 20_000 } else { 1_500 };
     for i in 0..n {
+        let mut r = r.at(i as u64);
         let (_, pred) = attgen::gen_predicate(&mut r);
         predicate_case(&mut sink, &mut model, &pred, "predicate");
         if i % 3 == 0 {
